@@ -24,10 +24,19 @@
 (* and the program never exits (Curlrevshell_quit_asfound.cfg: TLC refutes *)
 (* EndsAfterQuit).  DrainAfterQuit = TRUE is the repaired design: what is  *)
 (* still sent after the shell has returned is discarded.                   *)
+(*                                                                         *)
+(* Finish / TermStop: with -one-shell the server finishes by itself once   *)
+(* its shell has ended (the closing notices are on the operator channel by *)
+(* then), which cancels every context, the output goroutine of the         *)
+(* terminal included.  ShowBeforeStop = FALSE is the tree as found: that   *)
+(* goroutine returns as soon as it sees the cancellation, whatever is      *)
+(* still queued, so the 'shell is gone' notice is lost now and then        *)
+(* (Curlrevshell_finish_asfound.cfg: TLC refutes NoticeShownAtCompletion). *)
+(* ShowBeforeStop = TRUE: it first shows what has already been sent.       *)
 (***************************************************************************)
 EXTENDS Naturals, Sequences, FiniteSets, SequencesExt, TLC
 
-CONSTANTS NChunks, QCap, OchCap, Pause, MaxT, MaxEvents, MaxPerTick, DrainAfterQuit
+CONSTANTS NChunks, QCap, OchCap, Pause, MaxT, MaxEvents, MaxPerTick, DrainAfterQuit, ShowBeforeStop
 
 VARIABLES
   \* BrokerOut
@@ -37,44 +46,56 @@ VARIABLES
   now, muted, deadline, everO, nev, inTick, lastShown, firedAt, act,
   \* composition history
   displayed,    \* what reached the terminal's screen: chunk numbers, 0 = notice
-  quit          \* the operator has ended the program: the terminal takes nothing any more
+  quit,         \* the operator has ended the program: the terminal takes nothing any more
+  finished,     \* the server has finished by itself (-one-shell): every context is cancelled
+  tstopped      \* the terminal's output goroutine has returned because of that
 
 ovars == <<rpc, rpend, rerr, fpc, hold, endedBy, q, qclosed, och, ctxDone, closed, nread,
            sent, shown, fwd, dropped, logd, selfEnd>>
 tvars == <<now, muted, deadline, everO, nev, inTick, lastShown, firedAt, act>>
-vars == <<ovars, tvars, displayed, quit>>
+vars == <<ovars, tvars, displayed, quit, finished, tstopped>>
 
 Out == INSTANCE BrokerOut WITH ReaderSelectsCtx <- TRUE, MayOmitNotice <- FALSE
 Op  == INSTANCE Opshell WITH Emit <- FALSE
 
-Init == Out!Init /\ Op!Init /\ displayed = <<>> /\ quit = FALSE
+Init == Out!Init /\ Op!Init /\ displayed = <<>> /\ quit = FALSE /\ finished = FALSE /\ tstopped = FALSE
 
 (* the terminal takes the next item from the operator channel and handles it *)
 TakeAndShow ==
-  /\ och # <<>> /\ ~quit /\ UNCHANGED quit
+  /\ och # <<>> /\ ~quit /\ ~tstopped /\ UNCHANGED <<quit, finished, tstopped>>
   /\ Out!Term
   /\ IF Head(och) = 0
      THEN Op!Status /\ displayed' = Append(displayed, 0)
      ELSE Op!Plain /\ displayed' = IF muted THEN displayed ELSE Append(displayed, Head(och))
 
-B(A) == A /\ UNCHANGED <<tvars, displayed, quit>>
+B(A) == A /\ UNCHANGED <<tvars, displayed, quit, finished, tstopped>>
 BrokerStep == B(Out!Reader \/ Out!Forwarder \/ Out!Cancel \/ Out!CloseTransport)
 OperatorStep == /\ ~quit /\ (Op!CtrlO \/ Op!TimerFire \/ Op!Tick)
-                /\ UNCHANGED <<ovars, displayed, quit>>
+                /\ UNCHANGED <<ovars, displayed, quit, finished, tstopped>>
 
 Quit ==
   /\ ~quit /\ quit' = TRUE
   /\ IF ctxDone THEN UNCHANGED ovars ELSE Out!Cancel
-  /\ UNCHANGED <<tvars, displayed>>
+  /\ UNCHANGED <<tvars, displayed, finished, tstopped>>
 
 (* repaired design: what arrives on the operator channel after the shell has returned is thrown away *)
 Discard ==
   /\ quit /\ DrainAfterQuit /\ och # <<>>
   /\ och' = Tail(och)
   /\ UNCHANGED <<rpc, rpend, rerr, fpc, hold, endedBy, q, qclosed, ctxDone, closed, nread,
-                 sent, shown, fwd, dropped, logd, selfEnd, tvars, displayed, quit>>
+                 sent, shown, fwd, dropped, logd, selfEnd, tvars, displayed, quit, finished, tstopped>>
 
-Next == TakeAndShow \/ BrokerStep \/ OperatorStep \/ Quit \/ Discard
+(* -one-shell: the output path is done (its notice is on the channel), the server finishes *)
+Finish ==
+  /\ ~quit /\ ~finished /\ fpc = "done" /\ finished' = TRUE
+  /\ UNCHANGED <<ovars, tvars, displayed, quit, tstopped>>
+(* the terminal's output goroutine sees the cancellation and returns *)
+TermStop ==
+  /\ finished /\ ~tstopped /\ (ShowBeforeStop => och = <<>>)
+  /\ tstopped' = TRUE
+  /\ UNCHANGED <<ovars, tvars, displayed, quit, finished>>
+
+Next == TakeAndShow \/ BrokerStep \/ OperatorStep \/ Quit \/ Discard \/ Finish \/ TermStop
 Spec == Init /\ [][Next]_vars
 Fair ==
   /\ WF_vars(B(Out!RLoop)) /\ WF_vars(B(Out!RSend)) /\ WF_vars(B(Out!RSendCtx)) /\ WF_vars(B(Out!RExit))
@@ -102,6 +123,10 @@ UnmutedAndUncancelledLosesNothing ==
 (* full the operator channel was                                                        *)
 EndsAfterQuit == quit ~> (fpc = "done")
 
+(* C04 with -one-shell: the closing notices of the last shell are shown although the    *)
+(* program is on its way out (unless the operator has ended it himself)                 *)
+NoticeShownAtCompletion == (tstopped /\ ~quit) => och = <<>>
+
 (* the terminal never waits for the broker: it can always take what is there *)
-TerminalIndependent == (~quit /\ och # <<>> /\ nev < MaxEvents /\ inTick < MaxPerTick /\ ~Op!Due /\ firedAt # now /\ ~(muted /\ deadline = now)) => ENABLED TakeAndShow
+TerminalIndependent == (~quit /\ ~tstopped /\ och # <<>> /\ nev < MaxEvents /\ inTick < MaxPerTick /\ ~Op!Due /\ firedAt # now /\ ~(muted /\ deadline = now)) => ENABLED TakeAndShow
 =============================================================================
